@@ -196,7 +196,8 @@ def object_histories(run, ct, rng, count):
         try:
             with core.watchdog(120):
                 if kind == "tree-mutated":
-                    tree = ct.array_contract_tree(inp, out, size, optimize="greedy")
+                    # (labels kept as they are: the harness addresses indices of this tree by their own names)
+                    tree = ct.array_contract_tree(inp, out, size, optimize="greedy", canonicalize=False)
                     steps = []
                     for step in range(3):
                         arrays = arrays_for(net, rng)
